@@ -129,6 +129,138 @@ fn emit(out: &mut Out, l: &Layout, off: u64, q: &str, a: u64, n: u64) {
     out.case(&line, if nontrivial { Some(&key) } else { None });
 }
 
+fn seg_str(s: &MemorySegment) -> String {
+    format!("{}:{}:{}{}{}", s.base_address, hex(&s.bytes), s.read_flag as u8, s.write_flag as u8, s.execute_flag as u8)
+}
+
+/// evaluate one constructor case on the real code. `v` holds the inputs.
+fn eval_ctor(v: &Value) -> String {
+    let bin: Vec<u8> = {
+        let d = v["bin"].as_str().unwrap();
+        (0..d.len() / 2).map(|i| u8::from_str_radix(&d[2 * i..2 * i + 2], 16).unwrap()).collect()
+    };
+    let n = |k: &str| v[k].as_u64().unwrap();
+    let kind = v["q"].as_str().unwrap().to_string();
+    let v2 = v.clone();
+    let r = catch(move || match kind.as_str() {
+        "elfseg" => {
+            let mut ph = goblin::elf::ProgramHeader::default();
+            ph.p_type = goblin::elf::program_header::PT_LOAD;
+            ph.p_offset = n("off");
+            ph.p_filesz = n("filesz");
+            ph.p_vaddr = n("vaddr");
+            ph.p_memsz = n("memsz");
+            ph.p_flags = n("flags") as u32;
+            seg_str(&MemorySegment::from_elf_segment(&bin, &ph))
+        }
+        "elfsec" => {
+            let mut sh = goblin::elf::SectionHeader::default();
+            sh.sh_type = n("shtype") as u32;
+            sh.sh_flags = n("flags");
+            sh.sh_offset = n("off");
+            sh.sh_size = n("size");
+            sh.sh_addralign = n("align");
+            seg_str(&MemorySegment::from_elf_section(&bin, n("base"), &sh))
+        }
+        "pesec" => {
+            let mut st = goblin::pe::section_table::SectionTable::default();
+            st.pointer_to_raw_data = n("rawptr") as u32;
+            st.size_of_raw_data = n("rawsize") as u32;
+            st.virtual_size = n("vsize") as u32;
+            st.virtual_address = n("vaddr") as u32;
+            st.characteristics = n("chars") as u32;
+            seg_str(&MemorySegment::from_pe_section(&bin, &st))
+        }
+        "hex" => match cwe_checker_lib::utils::binary::parse_hex_string_to_u64(v2["s"].as_str().unwrap()) {
+            Ok(x) => format!("ok:{}", x),
+            Err(_) => "err".into(),
+        },
+        "bare" => {
+            let cfg = cwe_checker_lib::utils::binary::BareMetalConfig {
+                processor_id: v2["pid"].as_str().unwrap().to_string(),
+                flash_base_address: v2["flash"].as_str().unwrap().to_string(),
+                ram_base_address: v2["ram"].as_str().unwrap().to_string(),
+                ram_size: v2["ramsize"].as_str().unwrap().to_string(),
+            };
+            match RuntimeMemoryImage::new_from_bare_metal(&bin, &cfg) {
+                Ok(img) => format!(
+                    "ok:{}:{}:{}",
+                    img.is_little_endian as u8,
+                    img.is_lkm as u8,
+                    img.memory_segments.iter().map(seg_str).collect::<Vec<_>>().join(";")
+                ),
+                Err(_) => "err".into(),
+            }
+        }
+        _ => "unknown-query".into(),
+    });
+    match r {
+        Ok(s) => s,
+        Err(_) => "panic".into(),
+    }
+}
+
+fn emit_ctor(out: &mut Out, mut v: Value) {
+    let r = eval_ctor(&v);
+    v["impl"] = json!(r);
+    out.count(&format!("q:{}", v["q"].as_str().unwrap()));
+    out.count(&format!("ctor-res:{}", r.split(':').next().unwrap()));
+    let line = v.to_string();
+    out.case(&line, if r != "err" && r != "panic" { Some(&line) } else { None });
+}
+
+fn rand_hexstr(rng: &mut Rng) -> String {
+    let v = match rng.below(6) { 0 => 0, 1 => rng.below(0x100), 2 => rng.below(0x1_0000_0000), 3 => u64::MAX - rng.below(64), _ => rng.below(0x10000) };
+    match rng.below(10) {
+        0 => format!("{:x}", v),
+        1 => format!("0X{:x}", v),
+        2 => format!("0x{:X}", v),
+        3 => format!("0x+{:x}", v),
+        4 => "0x".to_string(),
+        5 => format!("0x{:x}g", v),
+        6 => format!("0x1{:016x}", v),
+        _ => format!("0x{:x}", v),
+    }
+}
+
+fn gen_ctor(out: &mut Out, rng: &mut Rng) {
+    let blen = rng.below(24) as usize;
+    let bin: Vec<u8> = (0..blen).map(|_| rng.below(256) as u8).collect();
+    match rng.below(5) {
+        0 => {
+            let off = rng.below(blen as u64 + 2);
+            let filesz = rng.below(blen as u64 + 2);
+            let memsz = if rng.chance(1, 2) { filesz } else { rng.below(40) };
+            emit_ctor(out, json!({"q":"elfseg","bin":hex(&bin),"off":off,"filesz":filesz,"vaddr":rng.below(0x10000),"memsz":memsz,"flags":rng.below(8)}));
+        }
+        1 => {
+            let off = rng.below(blen as u64 + 2);
+            let size = rng.below(blen as u64 + 2);
+            let shtype = *rng.pick(&[1u64, 1, 8, 3, 0]);
+            let align = *rng.pick(&[0u64, 1, 2, 3, 4, 8, 16, 24, 32]);
+            emit_ctor(out, json!({"q":"elfsec","bin":hex(&bin),"base":rng.below(200),"shtype":shtype,"flags":rng.below(8) | if rng.chance(1,8) {1u64<<32} else {0},"off":off,"size":size,"align":align}));
+        }
+        2 => {
+            let rawptr = rng.below(blen as u64 + 2);
+            let rawsize = rng.below(blen as u64 + 2);
+            let vsize = if rng.chance(1, 2) { rawsize } else { rng.below(40) };
+            let chars = (rng.below(8) << 29) | rng.below(0x100);
+            emit_ctor(out, json!({"q":"pesec","bin":hex(&bin),"rawptr":rawptr,"rawsize":rawsize,"vsize":vsize,"vaddr":rng.below(0x10000),"chars":chars}));
+        }
+        3 => emit_ctor(out, json!({"q":"hex","bin":"","s":rand_hexstr(rng)})),
+        _ => {
+            let bits = *rng.pick(&["16", "32", "64", "8", "+32", "x", "0", "63", "65", "128"]);
+            let pid = match rng.below(8) {
+                0 => format!("ARM:XE:{}:v8", bits),
+                1 => format!("ARM:LE"),
+                2 => format!("ARM:BE:{}", bits),
+                _ => format!("ARM:{}:{}:v8", if rng.chance(1, 2) { "LE" } else { "BE" }, bits),
+            };
+            emit_ctor(out, json!({"q":"bare","bin":hex(&bin),"pid":pid,"flash":rand_hexstr(rng),"ram":rand_hexstr(rng),"ramsize":format!("0x{:x}", rng.below(40))}));
+        }
+    }
+}
+
 fn main() {
     quiet_panics();
     let args = Args::parse();
@@ -141,6 +273,12 @@ fn main() {
     if let Some(lines) = args.replay_lines() {
         for line in lines {
             let v: Value = serde_json::from_str(&line).expect("replay line");
+            if v.get("bin").is_some() {
+                let mut v2 = v.clone();
+                v2.as_object_mut().unwrap().remove("impl");
+                emit_ctor(&mut out, v2);
+                continue;
+            }
             let segs = v["segs"]
                 .as_array()
                 .unwrap()
@@ -169,6 +307,10 @@ fn main() {
         return;
     }
     let mut rng = Rng::new(args.seed);
+    let ctors = args.num("ctors", 20_000, 400_000);
+    for _ in 0..ctors {
+        gen_ctor(&mut out, &mut rng);
+    }
     let layouts = args.num("layouts", 150, 6000);
     for _ in 0..layouts {
         let l = gen_layout(&mut rng, true);
